@@ -8,9 +8,9 @@ cd "$W" || exit 2
 git checkout -q -- TexSoup && git apply seed.patch || { echo "patch does not apply"; exit 2; }
 T=$(/venv/bin/python -m pytest -q -p no:cacheprovider --no-cov 2>&1 | tail -1)
 PYTHONPATH="$W" /venv/bin/python demo.py >/tmp/demo-with.out 2>&1; RC1=$?
-git stash -q -- TexSoup
+git apply -R seed.patch
 PYTHONPATH="$W" /venv/bin/python demo.py >/tmp/demo-without.out 2>&1; RC0=$?
-git stash pop -q
+git apply seed.patch
 echo "$ID tests: $T | demo with change rc=$RC1, without rc=$RC0"
 mkdir -p "$D"
 cp seed.patch "$D/patch.diff"; cp demo.py "$D/demo.py"; cp NOTES.md "$D/NOTES.md" 2>/dev/null
